@@ -1,8 +1,9 @@
 """C17 — all peers agree on who owns a subscriber."""
 import verif as V
+import locks
 
 PROP = "C17"
-SPEC = "Bng.Spec.C17"
+SPEC = ["Bng.Spec.C17"] + ["Bng.Spec.C17Locks"]
 MON = ["agree", "minimal", "perm", "head", "hminimal", "single"]
 COMPS = [
     V.Component("rendezvous", monitors=MON),
@@ -27,11 +28,12 @@ ASSUME = [
     "end-to-end forwarding runs over an in-memory http.RoundTripper into the peers' real handlers, not over loopback sockets",
     "each PeerPool method is one atomic step (p.mu / healthMu); node ids are arbitrary byte strings",
 ]
+ASSUME = ASSUME + [locks.ASSUME]
 
 
 def run(tier, seed):
-    return V.standard_check(PROP, SPEC, COMPS, LEVEL, ASSUME, tier, seed)
+    return V.standard_check(PROP, SPEC, COMPS, LEVEL, ASSUME, tier, seed, pre=locks.with_locks())
 
 
 def replay(path):
-    return V.replay(PROP, COMPS, path, SPEC)
+    return V.replay(PROP, COMPS, path, SPEC, pre=locks.with_locks())
